@@ -1,6 +1,120 @@
 package main
 
+import (
+	"encoding/json"
+	"fmt"
+	"os"
+	"os/exec"
+	"path/filepath"
+	"regexp"
+	"strings"
+	"time"
+)
+
+// Witness: a concrete failing input for an obligation, as a Go test body run in-package against the real
+// code of /repo's working tree (injected with `go test -overlay`, nothing is written to /repo).
+// The test must FAIL (or panic) when the defect is present and PASS when it is absent.
+type Witness struct {
+	Dir     string `json:"dir"`               // directory under the repository root: "v5", "v5/internal/json", "." (legacy root, staged)
+	Package string `json:"package"`           // package clause of the test file
+	Imports string `json:"imports,omitempty"` // extra import lines
+	Body    string `json:"body"`              // statements of func TestWitness(t *testing.T)
+	Input   string `json:"input,omitempty"`   // human-readable description of the failing input
+}
+
+type witnessResult struct {
+	Reproduced bool
+	Output     string
+	Cmd        string
+}
+
+func runWitness(w *Witness) witnessResult {
+	tmp, err := os.MkdirTemp("", "govc-replay-")
+	if err != nil {
+		return witnessResult{Output: err.Error()}
+	}
+	defer os.RemoveAll(tmp)
+	src := fmt.Sprintf("package %s\n\nimport (\n\t\"testing\"\n%s\n)\n\nfunc TestWitness(t *testing.T) {\n%s\n}\n", w.Package, w.Imports, w.Body)
+	tf := filepath.Join(tmp, "zz_witness_test.go")
+	if err := os.WriteFile(tf, []byte(src), 0o644); err != nil {
+		return witnessResult{Output: err.Error()}
+	}
+	dir := filepath.Join(*flagRepo, w.Dir)
+	cleanup := func() {}
+	if w.Dir == "." || w.Dir == "" {
+		// legacy root package: staged as a throw-away module
+		d, c, err := stageRoot()
+		cleanup = c
+		if err != nil {
+			c()
+			return witnessResult{Output: err.Error()}
+		}
+		dir = d
+	}
+	defer cleanup()
+	ov := map[string]map[string]string{"Replace": {filepath.Join(dir, "zz_witness_test.go"): tf}}
+	ob, _ := json.Marshal(ov)
+	ovf := filepath.Join(tmp, "overlay.json")
+	os.WriteFile(ovf, ob, 0o644)
+	args := []string{"test", "-overlay", ovf, "-vet=off", "-count=1", "-timeout", "60s", "-run", "^TestWitness$", "."}
+	cmd := exec.Command("go", args...)
+	cmd.Dir = dir
+	cmd.Env = append(os.Environ(), "GOFLAGS=-mod=mod", "GOPROXY=off", "GOSUMDB=off", "GOTOOLCHAIN=local")
+	done := make(chan struct{})
+	var out []byte
+	go func() { out, _ = cmd.CombinedOutput(); close(done) }()
+	select {
+	case <-done:
+	case <-time.After(120 * time.Second):
+		if cmd.Process != nil {
+			cmd.Process.Kill()
+		}
+		<-done
+	}
+	o := string(out)
+	res := witnessResult{Output: truncate(o, 3000), Cmd: "cd " + dir + " && go " + strings.Join(args, " ")}
+	// reproduced: the test ran and failed (FAIL / panic); not: build errors, or PASS
+	if regexp.MustCompile(`(?m)^(--- FAIL|panic:|FAIL\s)`).MatchString(o) && !strings.Contains(o, "[build failed]") && !strings.Contains(o, "[setup failed]") {
+		res.Reproduced = true
+	}
+	return res
+}
+
+// replayObligation: model-based replay. The generator's failed goals are almost always quantified
+// (package invariants, array properties), for which the solvers answer `unknown` rather than `sat`;
+// a `sat` model over the abstract byte/JSON vocabulary does not determine concrete input bytes. No
+// automatic input synthesis is attempted: the replay file carries the obligation, the query and the
+// solver output, and the VIOLATION line ends with no-failing-input-found unless a stored witness
+// (known_findings.json / contracts/witnesses.json) for this obligation reproduces on the current tree.
 func replayObligation(o *Obligation, rf *replayFile) bool {
 	rf.ReplayResult = "none"
+	for _, w := range loadWitnesses() {
+		if w.Obligation == o.Name {
+			r := runWitness(&w.Witness)
+			rf.ReplayTest = w.Witness.Body
+			rf.ReplayCmd = r.Cmd
+			rf.ReplayOutput = r.Output
+			if r.Reproduced {
+				rf.ReplayResult = "confirmed: " + w.Witness.Input
+				return true
+			}
+			rf.ReplayResult = "not-reproduced"
+		}
+	}
 	return false
+}
+
+type storedWitness struct {
+	Obligation string  `json:"obligation"`
+	Witness    Witness `json:"witness"`
+}
+
+func loadWitnesses() []storedWitness {
+	var ws []storedWitness
+	b, err := os.ReadFile(filepath.Join(*flagVerif, "contracts", "witnesses.json"))
+	if err != nil {
+		return nil
+	}
+	json.Unmarshal(b, &ws)
+	return ws
 }
